@@ -15,6 +15,10 @@ def extra(res, facts, entries, protos):
     for i in g.instances:
         if "footer" in i or "segment-count" in i:
             res.inst("C05.R1", i)
+    # R6: the footer segment written by format_token is URL_SAFE_NO_PAD(F), present iff F is non-empty; R7: the PAE framing keeps the footer apart from its neighbours
+    from . import c08_fpai
+    c08_fpai.format_token(res, facts, rule="C05.R6")
+    c08_fpai.pae(res, facts, rule="C05.R7")
     # absent == empty: the expected footer enters both the comparison and the PAE through unwrap_or_default (R2 checks the PAE side)
     res.notes.append("absent == empty: the expected footer reaches the comparison and every PAE as Option::unwrap_or_default(param)")
 
@@ -22,7 +26,7 @@ def extra(res, facts, entries, protos):
 def run(tier):
     return _proto.run_rules(
         "C05", LEVEL, RULES,
-        {"C05.R1": 4, "C05.R2": 16, "C05.R3": 4, "C05.R5": 21},
+        {"C05.R1": 4, "C05.R2": 16, "C05.R3": 4, "C05.R5": 21, "C05.R6": 3, "C05.R7": 2},
         "must-pass-through on the CFG of parse_raw_token (footer gate), provenance terms of the footer component in all 16 pre-authentication encodings "
         "(caller's expected footer on consumer sides, the builder's own footer on producer sides), identity of the Footer carrier and its base64 text, footer plumbing through the 32 wrappers and setters",
         ["MAC / signature strength: a different footer under the authenticator yields a different tag", "ring verify_slices_are_equal compares length and content", "base64 URL_SAFE_NO_PAD encoding is injective"],
